@@ -33,6 +33,25 @@ class RetryableInjected(socket.timeout):
     """retryable stream fault (member of S3_RETRYABLE_DOWNLOAD_ERRORS through socket.timeout)"""
 
 
+class InjectedTimeout(socket.timeout):
+    """a NON-stream fault (destination write, file-system operation, source read, non-GetObject request) whose TYPE
+    happens to belong to the retryable family (socket.timeout): must be reported like any other failure"""
+
+    def __init__(self, kind='', idx=-1):
+        socket.timeout.__init__(self, 'injected timeout')
+        self.kind = kind
+        self.idx = idx
+
+
+class InjectedConn(ConnectionResetError):
+    """as InjectedTimeout, of the ConnectionError family (e.g. a broken pipe / reset socket behind the destination)"""
+
+    def __init__(self, kind='', idx=-1):
+        ConnectionResetError.__init__(self, 104, 'injected connection reset')
+        self.kind = kind
+        self.idx = idx
+
+
 class Nondet:
     """supplies the environment's choices from a list of (symbolic) integers; exhausted -> default"""
 
@@ -53,6 +72,9 @@ class Env:
 
     def __init__(self, fault_at=-1, fault_phase=0, nd=None, faultable=None, fault_at2=-1):
         self.fault_at2 = fault_at2     # optional second fault (before the effect), for fault pairs
+        self.fault_cls = 0             # exception type of the injected fault: 0 plain Exception, 1 OSError, 2 socket.timeout
+        #                                family, 3 ConnectionError family (2/3 never on GetObject / body reads, where a
+        #                                retry is legitimate)
         self.all_delivered = []
         self.clock = 0
         self.log = []
@@ -74,6 +96,16 @@ class Env:
     def _counts(self, kind):
         return self.faultable is None or kind.split('.')[0] in self.faultable or kind in self.faultable
 
+    def _exc(self, kind, idx):
+        c = self.fault_cls
+        if c == 0 or kind in ('s3.get_object', 's3.body_read'):
+            return Injected(kind, idx)
+        if c == 1:
+            return InjectedOS(kind, idx)
+        if c == 2:
+            return InjectedTimeout(kind, idx)
+        return InjectedConn(kind, idx)
+
     def call(self, kind, **info):
         """entry of an environment call; returns its index (or -1 when the kind is not numbered)"""
         if self._counts(kind):
@@ -91,7 +123,7 @@ class Env:
             self.delivered = (idx, kind)
             self.all_delivered.append((idx, kind))
             self.stamp('fault', kind, idx)
-            raise Injected(kind, idx)
+            raise self._exc(kind, idx)
         if idx >= 0 and self.fault_at2 >= 0 and idx == self.fault_at2:
             if self.delivered is None:
                 self.delivered = (idx, kind)
@@ -108,7 +140,7 @@ class Env:
             # 'the service applied the call, the client got an error' (only meaningful for requests)
             self.delivered = (idx, kind)
             self.stamp('fault', kind, idx)
-            raise Injected(kind, idx)
+            raise self._exc(kind, idx)
 
     def events(self, what, kind_prefix=''):
         return [e for e in self.log if e[1] == what and e[2].startswith(kind_prefix)]
